@@ -69,9 +69,9 @@ CLAIMS = {
     'C15': {'level': 'exploration', 'technique': 'bounded stand-in (DAG checker from the property text on all small temporal graphs, all roots/targets/windows)',
             'text': 'Acyclicity, edge soundness, window, sources/targets, ValueError for invalid windows, empty DAG without snapshots; ids not 0-based, negative, with gaps. '
                     'Known finding D19 (self-loop on the root).', 'note': BOUNDED_NOTE},
-    'C16': {'level': 'exploration', 'technique': 'bounded stand-in (runtime oracle over an enumerated small scope incl. multi-run reciprocal timelines); conversions not yet under contract',
-            'text': 'class, nodes kept, presence relation per the property (union / reciprocal intersection / both directions), source unchanged, result well formed, deep-copy '
-                    'isolation incl. growing a run of the result in place. Known finding D09b (to_directed creates one direction).', 'note': BOUNDED_NOTE},
+    'C16': {'level': 'other', 'technique': 'contract-based deductive verification (pyvc) of DynGraph.to_directed, modular: against the contracts of the DynDiGraph constructor, add_interaction (caller side) and the flattened iterator; bounded stand-in for to_undirected and isolation',
+            'text': 'to_directed is proved for all graphs: result class, node set and node/graph attributes kept, presence of the listed orientation = presence in G for every pair and instant, every add_interaction call site satisfies the callee precondition (t an int - not an aliased interval list -, e > t, never rejected), G unchanged, result written only through contracted operations (typestate). The property clause "both orientations" is known finding D09b. Bounded: class, nodes kept, presence relation per the property (union / reciprocal intersection / both directions), source unchanged, result well formed, deep-copy '
+                    'isolation incl. growing a run of the result in place. Known finding D09b (to_directed creates one direction).', 'note': KERNEL_NOTE + ' Trusted models: networkx add_nodes_from(graph) (new-node rows only, per the C19 frame analysis), copy.deepcopy (equal value, no sharing).'},
     'C17': {'level': 'other', 'technique': 'contract-based deductive verification (pyvc) of edge_contribution (loop invariant: running sum of interval lengths); bounded stand-in (exact Fraction recomputation) for the other measures',
             'text': 'edge_contribution(u,v) proved equal to sum_i(e_i - s_i + 1) / |dom Cnt| (0 for a pair that never interacts, no ZeroDivisionError), modularly against has_interaction; with counting lemma L4 (assumed) this is |T_uv|/|T|. All eleven stream-graph measures and the inter-event histograms (global, per node, in/out) recomputed exactly on the small scope. Known finding D24.',
             'note': KERNEL_NOTE + ' Counting lemmas L1 (instance: non-empty set has cardinality >= 1) and L4 assumed; / is real division. Floats are compared with tolerance 1e-9 against exact rationals in the bounded part.'},
